@@ -9,7 +9,7 @@ from core import Case, CheckBroken
 
 PID = "C01"
 LEAN_MODULES = ["KrroodVerif.Props.C01", "KrroodVerif.Props.C01Union", "KrroodVerif.Props.C01Typed",
-                "KrroodVerif.Props.C01Quant"]
+                "KrroodVerif.Props.C01Quant", "KrroodVerif.Props.C01IR"]
 THEOREMS = [
     "KrroodVerif.Eql.C01_cover",
     "KrroodVerif.Eql.C01_sound_complete_partial",
@@ -60,6 +60,9 @@ THEOREMS = [
     "KrroodVerif.Eql.C01_quant_need_A2",
     "KrroodVerif.Eql.C01_quant_need_shape",
     "KrroodVerif.Eql.C01_quant_need_scope",
+    # c01b: the interpreter of the translated evaluation methods agrees with the hand-written `eval` (Props/C01IR.lean)
+    "KrroodVerif.Eql.IR.runNode_not",
+    "KrroodVerif.Eql.IR.C01_runIR_eq_eval_not_partial",
 ]
 # second tie (translator): the table of construction-time rewrites regenerated from the current source equals the one
 # `build` transcribes and is admissible — the same two obligations as C02 (harness/translate/c02_translate.py)
